@@ -309,6 +309,11 @@ func (e *Engine) doCall(g *G, fv Value, args []Value, retTo ssa.Value, cs *callS
 }
 
 func (e *Engine) callFunction(g *G, fn *ssa.Function, args []Value, env []Value, retTo ssa.Value, cs *callSite, setRet func(Value)) bool {
+	if fn.Synthetic == "package initializer" && fn != e.initTarget {
+		// imported packages are initialised lazily, when first touched
+		setRet(nil)
+		return true
+	}
 	name := fn.String()
 	if fn.Origin() != nil {
 		// instantiated generic: also try the origin's name
